@@ -37,6 +37,7 @@ func (m *Mutex) Init() {
 // will wait until it has a chance to acquire it.
 func (m *Mutex) Lock() {
 	// Uncontended case.
+	verifPoint(verifLockAdd)
 	if atomic.AddInt32(&m.v, -1) == 0 {
 		return
 	}
@@ -46,11 +47,13 @@ func (m *Mutex) Lock() {
 		// that m.v is negative, which indicates to the owner of the
 		// lock that it is contended, which will force it to try to wake
 		// someone up when it releases the mutex.
+		verifPoint(verifLockLoad)
 		if v := atomic.LoadInt32(&m.v); v >= 0 && atomic.SwapInt32(&m.v, -1) == 1 {
 			return
 		}
 
 		// Wait for the mutex to be released before trying again.
+		verifPoint(verifLockRecv)
 		<-m.ch
 	}
 }
@@ -59,21 +62,25 @@ func (m *Mutex) Lock() {
 // currently held by another goroutine, it fails to acquire it and returns
 // false.
 func (m *Mutex) TryLock() bool {
+	verifPoint(verifTryLoad)
 	v := atomic.LoadInt32(&m.v)
 	if v <= 0 {
 		return false
 	}
+	verifPoint(verifTryCAS)
 	return atomic.CompareAndSwapInt32(&m.v, 1, 0)
 }
 
 // Unlock releases the mutex.
 func (m *Mutex) Unlock() {
+	verifPoint(verifUnlockSwap)
 	if atomic.SwapInt32(&m.v, 1) == 0 {
 		// There were no pending waiters.
 		return
 	}
 
 	// Wake some waiter up.
+	verifPoint(verifUnlockSend)
 	select {
 	case m.ch <- struct{}{}:
 	default:
